@@ -256,6 +256,66 @@ def gen_linsolve_classchange(rng):
     return case, pts
 
 
+def gen_classchange(rng, kind):
+    """SystemOfEquations / StaticCondensation / EigenSolve / Inverse visiting matrices of different classes on ONE module
+    (symmetric first, non-symmetric later, and back): flags or solvers remembered from an earlier matrix must not matter"""
+    pm = _pm()
+    n = int(rng.integers(3, 7))
+    cplx_ok = kind in ("soe", "inverse", "eigensolve")
+    pool = ["spd", "symindef", "general"] + (["csym"] if cplx_ok else [])
+    classes = [pool[int(rng.integers(0, len(pool)))] for _ in range(4)]
+    if rng.random() < 0.7:
+        classes[0] = ["spd", "symindef"][int(rng.integers(0, 2))]
+        classes[1] = "general"
+    mats = []
+    for c in classes:
+        A = zoo._rand_matrix(rng, n, c, c == "csym")
+        if kind == "eigensolve":   # keep the spectrum simple and well separated: A = V diag(d) V^-1
+            d = np.arange(1, n + 1) * 1.0 + rng.uniform(-0.2, 0.2, n)
+            if c in ("spd", "symindef"):
+                Q, _ = np.linalg.qr(rng.standard_normal((n, n)))
+                A = Q @ np.diag(d * (1 if c == "spd" else np.where(np.arange(n) % 2, -1, 1))) @ Q.T
+                A = (A + A.T) / 2
+            else:
+                V = np.eye(n) + 0.3 * (rng.standard_normal((n, n)) + (1j * rng.standard_normal((n, n)) if c == "csym" else 0))
+                A = V @ np.diag(d) @ np.linalg.inv(V)
+        mats.append(A)
+    perm = rng.permutation(n)
+    if kind == "soe":
+        nf = int(rng.integers(1, n))
+        f, p = np.sort(perm[:nf]), np.sort(perm[nf:])
+        sparse = rng.random() < 0.5
+        pts = [[(sps.csc_matrix(A) if sparse else A), rng.standard_normal(nf) + (1j * rng.standard_normal(nf) if np.iscomplexobj(A) else 0),
+                rng.standard_normal(n - nf) + (1j * rng.standard_normal(n - nf) if np.iscomplexobj(A) else 0)] for A in mats]
+
+        def make():
+            sA, s1, s2 = pm.Signal("A", zoo.vcopy(pts[0][0])), pm.Signal("bf", zoo.vcopy(pts[0][1])), pm.Signal("xp", zoo.vcopy(pts[0][2]))
+            return pm.SystemOfEquations([sA, s1, s2], free=f.copy(), prescribed=p.copy()), [sA, s1, s2]
+    elif kind == "staticcond":
+        nm = int(rng.integers(1, n))
+        nfree = int(rng.integers(1, n - nm + 1))
+        main, free = np.sort(perm[:nm]), np.sort(perm[nm:nm + nfree])
+        pts = [[sps.csc_matrix(A)] for A in mats]
+
+        def make():
+            sA = pm.Signal("A", zoo.vcopy(pts[0][0]))
+            return pm.StaticCondensation([sA], main=main.copy(), free=free.copy()), [sA]
+    elif kind == "inverse":
+        pts = [[A] for A in mats]
+
+        def make():
+            sA = pm.Signal("A", zoo.vcopy(pts[0][0]))
+            return pm.Inverse([sA]), [sA]
+    else:
+        pts = [[A] for A in mats]
+
+        def make():
+            sA = pm.Signal("A", zoo.vcopy(pts[0][0]))
+            return pm.EigenSolve([sA]), [sA]
+    case = zoo.Case(f"{kind}.classchange.n{n}.{'-'.join(classes)}", make)
+    return case, pts
+
+
 def gen_network(rng):
     """filter -> assembly -> (LinSolve | SystemOfEquations) -> compliance, as a Network; inputs: design x"""
     pm = _pm()
@@ -354,6 +414,18 @@ def correspondence(ctx):
             ctx.oracle_fail(r[1], {"case": case.name})
         else:
             ctx.distinct.add(("lib", case.name))
+    for kind in ("soe", "staticcond", "inverse", "eigensolve"):
+        for _ in range(5 if ctx.quick else 40):
+            case, pts = gen_classchange(nprng, kind)
+            r = call_impl(history_oracle, case, nprng, int(nprng.integers(6, 16)), 1e-6, pts)
+            ctx.evaluations += 1
+            ctx.branch("lib." + kind + "-classchange")
+            if r[0] == "err":
+                ctx.oracle_fail(f"{case.name}: history raised {r[2][:300]}", {"case": case.name})
+            elif r[1]:
+                ctx.oracle_fail(r[1], {"case": case.name})
+            else:
+                ctx.distinct.add(("lib", case.name))
     for _ in range(3 if ctx.quick else 20):
         case = gen_network(nprng)
         r = call_impl(history_oracle, case, nprng, int(nprng.integers(6, 16)), 1e-6)
